@@ -79,7 +79,7 @@ def run_case(case):
             kind = str(rng.choice(KINDS))
             h = GS.header(kind)
             nc, ns = 384, int(rng.integers(5, 60))
-            pattern = str(rng.choice(["isolated", "clusters", "ends", "dense-bad", "with-outside", "column"]))
+            pattern = str(rng.choice(["isolated", "clusters", "ends", "dense-bad", "with-outside", "column", "inside-outside-block"]))
             labels = np.zeros(nc)
             if pattern == "isolated":
                 labels[rng.choice(nc, int(rng.integers(1, 12)), replace=False)] = rng.choice([1, 2], 1)
@@ -98,11 +98,16 @@ def run_case(case):
                 labels[-nt:] = 3
                 labels[rng.choice(nc - nt, int(rng.integers(1, 10)), replace=False)] = 1
                 labels[nc - nt - 1] = 2      # bad channel right below the outside block: outside channels are legitimate donors
+            elif pattern == "inside-outside-block":
+                nt = int(rng.integers(40, 120))      # outside-brain channels are legitimate donors: a bad channel deep inside the block has no other
+                labels[-nt:] = 3
+                labels[nc - nt // 2] = rng.choice([1, 2])
+                labels[nc - 1] = rng.choice([1, 2])
             else:
                 labels[np.flatnonzero(h["col"] == h["col"][0])[: int(rng.integers(3, 40))]] = 1
             dt = np.float64 if rng.random() < 0.7 else np.float32
             scale = float(10 ** rng.uniform(-5, 1))
-            mode = str(rng.choice(["random", "constant", "positive"]))
+            mode = str(rng.choice(["random", "constant", "positive"])) if pattern != "inside-outside-block" else "positive"
             if mode == "random":
                 data = rng.standard_normal((nc, ns)) * scale
             elif mode == "constant":
